@@ -266,10 +266,11 @@ func UnmarshalBytes(buf []byte, newBuf bool) (int, []byte, error) {
 		return 0, nil, err
 	}
 
-	ln := int(uln)
-	if len(buf) < ln+idx {
-		return 0, nil, noBufErr("UnmarshalBytes-size-body", len(buf)-idx, ln)
+	if uln > uint(len(buf)-idx) {
+		// the check is done for unsigned values, cause the length may not fit into int
+		return 0, nil, noBufErr("UnmarshalBytes-size-body", len(buf)-idx, int(uln))
 	}
+	ln := int(uln)
 
 	res := buf[idx : idx+ln]
 	if newBuf {
